@@ -245,6 +245,14 @@ fn call(p: &mut Parser, op: &str) -> Result<Res, ParserError> {
     }
 }
 
+fn retarget<'a>(p: Parser<'a>, via: &str, text: &str, toks: &[TokenWithLocation]) -> Result<Parser<'a>, ParserError> {
+    Ok(match via {
+        "sql" => p.try_with_sql(text)?,
+        "tokens" => p.with_tokens(toks.iter().map(|t| t.token.clone()).collect()),
+        _ => p.with_tokens_with_locations(toks.to_vec()),
+    })
+}
+
 /// One Parser value re-targeted over a history of texts vs a fresh parser per text; parser
 /// state observed through the cfg(sqlparser_verif) hooks after every call.
 pub fn reuse(c: &Value) -> Value {
@@ -252,6 +260,7 @@ pub fn reuse(c: &Value) -> Value {
     let d = d.as_ref();
     let texts: Vec<&str> = c["texts"].as_array().unwrap().iter().map(|t| t.as_str().unwrap()).collect();
     let ops: Vec<&str> = c["ops"].as_array().map(|a| a.iter().map(|t| t.as_str().unwrap()).collect()).unwrap_or_default();
+    let vias: Vec<&str> = c["vias"].as_array().map(|a| a.iter().map(|t| t.as_str().unwrap()).collect()).unwrap_or_default();
     let opts = options(d, c);
     let lim = limit(c);
     let mut reused = Some(configured(d, c));
@@ -263,21 +272,29 @@ pub fn reuse(c: &Value) -> Value {
             Ok(t) => t,
             Err(_) => { steps.push(json!([i, "lex-error-skipped"])); continue; }
         };
+        // the entry point through which the parser is (re-)targeted at this step
+        let via = vias.get(i).copied().unwrap_or("tokens_loc");
         let fresh: Out<Res> = guarded(|| {
-            let mut p = configured(d, c).with_tokens_with_locations(toks.clone());
+            let mut p = retarget(configured(d, c), via, text, &toks)?;
             call(&mut p, op)
         });
-        let mut p = reused.take().unwrap().with_tokens_with_locations(toks.clone());
+        let mut p = match retarget(reused.take().unwrap(), via, text, &toks) {
+            Ok(p) => p,
+            Err(e) => {
+                viol.push(json!({"what":"re-targeting a used parser failed although the text lexes","step":i,"via":via,"text":text,"observed":e.to_string()}));
+                break;
+            }
+        };
         #[cfg(sqlparser_verif)]
         {
             if p.verif_index() != 0 {
-                viol.push(json!({"what":"with_tokens_with_locations did not reset the index","step":i,"text":text,"observed":p.verif_index(),"expected":0}));
+                viol.push(json!({"what":"re-targeting did not reset the index","step":i,"via":via,"text":text,"observed":p.verif_index(),"expected":0}));
             }
         }
         let got: Out<Res> = guarded(|| call(&mut p, op));
         steps.push(json!([i, op, got.class()]));
         if got != fresh {
-            viol.push(json!({"what":"re-targeted parser differs from a fresh parser","step":i,"op":op,"text":text,
+            viol.push(json!({"what":"re-targeted parser differs from a fresh parser","step":i,"op":op,"via":via,"text":text,
                 "observed":got.show(),"expected":fresh.show()}));
         }
         if let Out::Panic(_) = got {
